@@ -106,6 +106,10 @@ pub struct Node<'c> {
     pub rx: VecDeque<Xfer>,
     pub tx: Vec<u8>,
     pub resp: Vec<u8>,
+    /// the driver's persistent receive buffer: every slice the library sees lives here, so
+    /// buffer addresses repeat within a run exactly as they do in firmware (and replay exactly)
+    pub rxbuf: Vec<u8>,
+    pub rx_count: u32,
     /// reference model: None = unknown (after an out-of-domain accepted assignment)
     pub m_eid_req: Option<u8>,
     pub m_eid_resp: Option<u8>,
@@ -199,6 +203,8 @@ impl<'c, 's> Run<'c, 's> {
                 rx: VecDeque::new(),
                 tx: vec![nc.poison_tx; nc.tx_cap],
                 resp: vec![nc.poison_resp; nc.resp_cap],
+                rxbuf: vec![nc.poison_resp ^ 0xFF; 2048],
+                rx_count: 0,
                 m_eid_req: Some(0),
                 m_eid_resp: Some(0),
                 m_uuid,
@@ -705,8 +711,32 @@ impl<'c, 's> Run<'c, 's> {
     }
 
     /// get_length through the real library, with the C10 / C17 / C04 oracles
+    /// copy `b` into node `ni`'s persistent RX buffer; returns the offset it was placed at
+    pub fn stage(&mut self, ni: usize, b: &[u8], rotate: bool) -> (usize, usize) {
+        let node = &mut self.nodes[ni];
+        let off = if rotate && node.cfg.rx_mode == 1 {
+            node.rx_count = node.rx_count.wrapping_add(1);
+            ((node.rx_count % 3) * 8) as usize
+        } else {
+            0
+        };
+        let n = b.len().min(node.rxbuf.len() - off);
+        node.rxbuf[off..off + n].copy_from_slice(&b[..n]);
+        (off, off + n)
+    }
+
+    /// get_length on a staged copy, no oracles
+    pub fn get_length_staged(&mut self, ni: usize, b: &[u8]) -> Len {
+        let (off, end) = self.stage(ni, b, false);
+        self.st.lib_calls += 1;
+        real::get_length(&self.nodes[ni].ctx, &self.nodes[ni].rxbuf[off..end])
+    }
+
     pub fn probe(&mut self, ni: usize, prefix: &[u8], head: Option<usize>) -> Len {
-        let r = real::get_length(&self.nodes[ni].ctx, prefix);
+        // (a FIFO holding more than the RX buffer is probed on what fits: 2 KiB)
+        let prefix = &prefix[..prefix.len().min(2000)];
+        let (off, end) = self.stage(ni, prefix, false);
+        let r = real::get_length(&self.nodes[ni].ctx, &self.nodes[ni].rxbuf[off..end]);
         self.st.lib_calls += 1;
         self.probe_oracles(ni, prefix, r, head);
         if self.cfg.snoop {
@@ -714,7 +744,8 @@ impl<'c, 's> Run<'c, 's> {
                 if nj == ni {
                     continue;
                 }
-                let rj = real::get_length(&self.nodes[nj].ctx, prefix);
+                let (offj, endj) = self.stage(nj, prefix, false);
+                let rj = real::get_length(&self.nodes[nj].ctx, &self.nodes[nj].rxbuf[offj..endj]);
                 self.st.lib_calls += 1;
                 self.eval(Prop::C17, "C17/context-independence");
                 if rj != r {
